@@ -306,3 +306,16 @@ Theorem contains_table_spaces : forall (S : obj R) (x : elem R),
   interp_contains contains_TensorSpace S x = contains live_variants S x.
 Proof. exact ctab_spaces. Qed.
 Print Assumptions eq_table_ProductSpace.
+
+(* ================================================================ byaxis_in *)
+(* space.byaxis_in[idx] discretizes exactly the selected axes (interval ends and grid vectors at
+   the selected positions, in order) and its tensor space has the shape of that sub-partition;
+   all index expressions (int, slice, list), all dimensions *)
+Theorem byaxis_in_selects_axes : forall dv (p : part R) (t : tsp R) i b,
+  obyaxis_in dv (ODiscr p t) i = Ok b ->
+  exists ps p' t', b = ODiscr p' t' /\
+    axis_positions (Z.of_nat (List.length (p_grid p))) i = Ok ps /\
+    Forall2 (fun q x => nth_error (p_intv p) (Z.to_nat q) = Some x) ps (p_intv p') /\
+    Forall2 (fun q x => nth_error (p_grid p) (Z.to_nat q) = Some x) ps (p_grid p') /\
+    ts_shape t' = map (fun g => Z.of_nat (List.length g)) (p_grid p').
+Proof. exact (@byaxis_in_spec R _). Qed.
